@@ -176,7 +176,7 @@ func imageconvCmd(args []string) error {
 		return err
 	}
 	defer done()
-	stride := 13
+	stride := 5
 	if *tier == "thorough" {
 		stride = 1
 	}
